@@ -109,6 +109,22 @@ theorem job_alone (jb : FileJob) (fs0 : FS) (ts : Nat → FLocal) (h0 : (ts 0).p
   | none => simp [runJobs, stepJob, h0, jobResult, hr]
   | some b => simp [runJobs, stepJob, h0, jobResult, hr, FS.put]
 
+-- non-vacuity: two jobs on two names, their steps interleaved one by one — each file ends as its own job makes it; on the *same* name the hypothesis
+-- fails and so does the conclusion (the second writer wins with a result computed from the content it read first)
+example :
+    let ja : FileJob := { name := [97], run := fun c => c.map (· ++ [1]) }
+    let jb : FileJob := { name := [98], run := fun c => c.map (· ++ [2]) }
+    let fs0 : FS := fun n => if n = [97] then some [10] else if n = [98] then some [20] else none
+    let fin := runJobs (fun i => if i = 0 then ja else jb) fs0 (fun _ => {}) [0, 1, 1, 0, 1, 0]
+    fin.1 [97] = some [10, 1] ∧ fin.1 [98] = some [20, 2] ∧ fin.1 [99] = none := by
+  decide
+example :
+    let ja : FileJob := { name := [97], run := fun c => c.map (· ++ [1]) }
+    let jb : FileJob := { name := [97], run := fun c => c.map (· ++ [2]) }
+    let fs0 : FS := fun n => if n = [97] then some [10] else none
+    (runJobs (fun i => if i = 0 then ja else jb) fs0 (fun _ => {}) [0, 1, 0, 0, 1, 1]).1 [97] = some [10, 2] := by
+  decide
+
 theorem fold_keys (C : CryptoFns) (seed : Bytes) : ∀ (arts sigs : List (PStr × J)) (k : PStr),
     k ∈ (arts.foldl (fun s a => dictSet s a.1 (artifactEntry C seed a.2)) sigs).map (·.1) ↔ k ∈ sigs.map (·.1) ∨ k ∈ arts.map (·.1)
   | [], sigs, k => by simp
